@@ -1,5 +1,7 @@
 //! mjv — bounded-exhaustive checks for the minijinja properties C01..C20.
 mod core;
+mod big;
+mod c08;
 mod c09;
 
 fn main() {
@@ -10,6 +12,7 @@ fn main() {
     }
     let args = core::parse_args(&argv[2..]);
     let code = match argv[1].to_ascii_lowercase().as_str() {
+        "c08" => c08::main(args),
         "c09" => c09::main(args),
         other => {
             eprintln!("unknown check {}", other);
